@@ -7,8 +7,8 @@
       temporary files it has consumed), only releases what it owns, whatever
       the file system answers, and ends in an ownership state satisfying [Q].
       The judgement mentions no other handle.
-   2. Every API program is typed from the empty ownership to the empty
-      ownership ([wp_call_prog]).
+   2. Every API program (Add, the two-table addition, compactions, Clean, ...)
+      is typed from the empty ownership to the empty ownership ([wp_call_prog]).
    3. A world invariant ties the ghost owners recorded in the abstract file
       system to the ownership state of each handle's remaining program; every
       step and every crash preserves it ([winv_step], [winv_crash]).
@@ -73,6 +73,7 @@ Fixpoint wp {A} (p : prog A) (Q : A -> own -> Prop) (o : own) : Prop :=
           | _ => wp (k SNoEnt) Q o
           end
       | QRemoveOne _ => forall n, wp (k (SRemoved n)) Q o
+      | QOpenOne _ => forall n f, wp (k (SVisited n f)) Q o
       | QReadDir => forall tabs, wp (k (SDir tabs)) Q o
       end
   end.
@@ -94,7 +95,7 @@ Lemma wp_mono : forall A (p : prog A) (Q Q' : A -> own -> Prop) o,
 Proof.
   induction p as [a|q k IH]; intros Q Q' o HQ H.
   - cbn [wp] in *. auto.
-  - destruct q as [pa| | | | | | |pa| |]; try destruct pa; cbn [wp] in *; wp_struct; eauto 6.
+  - destruct q as [pa| | | | | | |pa| | |]; try destruct pa; cbn [wp] in *; wp_struct; eauto 6.
 Qed.
 
 Lemma wp_bind : forall A B (p : prog A) (f : A -> prog B) (Q : B -> own -> Prop) o,
@@ -102,7 +103,7 @@ Lemma wp_bind : forall A B (p : prog A) (f : A -> prog B) (Q : B -> own -> Prop)
 Proof.
   induction p as [a|q k IH]; intros f Q o H.
   - cbn [wp pbind] in *. auto.
-  - destruct q as [pa| | | | | | |pa| |]; try destruct pa; cbn [wp pbind] in *; wp_struct; eauto 6.
+  - destruct q as [pa| | | | | | |pa| | |]; try destruct pa; cbn [wp pbind] in *; wp_struct; eauto 6.
 Qed.
 
 (* programs that neither need nor change any ownership *)
@@ -124,7 +125,7 @@ Proof. intros. apply wp_bind. apply H. exact H0. Qed.
 
 Definition neutral_req (q : req) : Prop :=
   match q with
-  | QReadList | QOpenTab _ | QOpenTmp _ | QRemove (PT _) | QRemoveOne _ | QReadDir => True
+  | QReadList | QOpenTab _ | QOpenTmp _ | QRemove (PT _) | QRemoveOne _ | QOpenOne _ | QReadDir => True
   | _ => False
   end.
 
@@ -132,7 +133,7 @@ Lemma neutral_op_bind : forall A q (f : resp -> prog A),
   neutral_req q -> (forall r, neutral (f r)) -> neutral (pbind (op q) f).
 Proof.
   intros A q f Hq Hf Q o H.
-  destruct q as [pa| | | | | | |pa| |]; try destruct pa; try contradiction; wpsimpl; wp_struct; apply Hf; exact H.
+  destruct q as [pa| | | | | | |pa| | |]; try destruct pa; try contradiction; wpsimpl; wp_struct; apply Hf; exact H.
 Qed.
 
 Lemma neutral_open_all : forall reuse old names acc, neutral (open_all reuse old names acc).
@@ -306,6 +307,78 @@ Proof.
   - wpsimpl. left. split; [left; reflexivity|]. split; [reflexivity|]. fin.
 Qed.
 
+Lemma wp_add_multi : forall attempts tx same m d,
+  wp (add_multi attempts tx same m) (fun _ o => final o) (mk_own false [] [] d).
+Proof.
+  intros attempts tx same m d. unfold add_multi. wpsimpl. split; [|apply final_mk].
+  intros _ c. destruct (negb (names_eqb _ (mnames m))).
+  { wpsimpl. split; [reflexivity|apply final_mk]. }
+  wpsimpl. intros tmp _ _. wpsimpl.
+  assert (G : In tmp [tmp] /\
+      (forall (n1 : nat) (f : tfile),
+       wp (do! _ := op (QRemove (PTmp tmp)) in
+           do! t2 := op QCreateTemp in
+           match t2 with
+           | STmp tmp2 =>
+               if same
+               then
+                do! _ := op (QRemove (PTmp tmp2)) in
+                do! _ := op (QRemove (PT n1)) in
+                do! _ := op (QRemove PLL) in Ret (m, RLockFailure)
+               else
+                do! _ := op (QOpenTab n1) in
+                do! _ := op (QOpenTmp tmp2) in
+                do! nw2 := op (QRenameTmp tmp2 (next_index m + 1) (next_index m + 1) []) in
+                match nw2 with
+                | SNew n2 _ =>
+                    do! _ := op (QRemove (PTmp tmp2)) in
+                    do! _ := op (QCommitList (mnames m ++ [n1; n2])) in
+                    do! rl := reload attempts true m in
+                    Ret (fst rl, ROk)
+                | _ => do! _ := op (QRemove (PT n1)) in do! _ := op (QRemove PLL) in Ret (m, RErr)
+                end
+           | _ => do! _ := op (QRemove (PT n1)) in do! _ := op (QRemove PLL) in Ret (m, RErr)
+           end)
+          (fun (_ : mem * apires) (o : own) => final o)
+          (mk_own true [] [] (tmp :: d)))).
+  { split; [left; reflexivity|]. intros n1 f. wpsimpl. right. split; [left; reflexivity|].
+    intros tmp2 _ Hd2. destruct same.
+    - wpsimpl. left. split; [left; reflexivity|]. split; (split; [reflexivity|fin]).
+    - wpsimpl.
+      assert (T : forall dd, wp (do! rl := reload attempts true m in Ret (fst rl, ROk))
+                           (fun (_ : mem * apires) (o : own) => final o) (mk_own false [] [] dd)).
+      { intro dd. apply wp_bind_neutral; [apply neutral_reload|]. intro rl. fin. }
+      repeat match goal with |- _ /\ _ => split | |- forall _, _ => intro end; try (left; reflexivity);
+        (right; split; [left; reflexivity|]; split; [reflexivity|apply T]). }
+  split; exact G.
+Qed.
+
+Lemma neutral_clean_loop : forall fuel cands mx, neutral (clean_loop fuel cands mx).
+Proof.
+  induction fuel as [|f IH]; intros cands mx; cbn [clean_loop].
+  - destruct cands; apply neutral_ret.
+  - destruct cands as [|c cs]; [apply neutral_ret|].
+    apply neutral_op_bind; [exact I|]. intro r. destruct r as [| | | | | | | |n o|]; try apply neutral_ret.
+    destruct o as [tf|]; [|apply IH].
+    destruct (tf_max tf <=? mx)%N; [|apply IH].
+    apply neutral_op_bind; [exact I|]. intros _. apply IH.
+Qed.
+
+Lemma wp_clean : forall attempts m d,
+  wp (clean attempts m) (fun _ o => final o) (mk_own false [] [] d).
+Proof.
+  intros attempts m d. unfold clean. wpsimpl. split; [|apply final_mk].
+  intros _ c. destruct (negb (names_eqb _ (mnames m))).
+  { wpsimpl. split; [reflexivity|apply final_mk]. }
+  apply wp_bind_neutral; [apply neutral_reload|]. intro rl.
+  destruct (snd rl).
+  - wpsimpl. intro tabs. destruct (fst rl) as [|x m'].
+    + wpsimpl. split; [reflexivity|fin].
+    + apply wp_bind_neutral; [apply neutral_clean_loop|]. intros _.
+      wpsimpl. split; [reflexivity|fin].
+  - wpsimpl. split; [reflexivity|fin].
+Qed.
+
 Lemma wp_wrap : forall A (p : prog A) f o,
   wp p (fun _ o' => final o') o -> wp (wrap p f) (fun _ o' => final o') o.
 Proof. intros A p f o H. unfold wrap. apply wp_bind. eapply wp_mono; [|exact H]. intros a o' H'. exact H'. Qed.
@@ -318,8 +391,9 @@ Theorem wp_call_prog : forall attempts o m d,
 Proof.
   intros attempts o m d.
   destruct o; destruct m as [mm|]; cbn [call_prog]; try apply final_mk;
-    try (apply wp_wrap; first [apply wp_add | apply wp_neutral_final; first [apply neutral_reload | apply neutral_open_reload | apply neutral_close]]).
+    try (apply wp_wrap; first [apply wp_add | apply wp_add_multi | apply wp_clean | apply wp_neutral_final; first [apply neutral_reload | apply neutral_open_reload | apply neutral_close]]).
   - destruct mm; [apply final_mk|]. apply wp_wrap. apply wp_compact_range.
+  - destruct (Nat.ltb last (length mm) && Nat.leb first last); [|apply final_mk]. apply wp_wrap. apply wp_compact_range.
   - destruct mm; [apply final_mk|]. apply wp_wrap. apply wp_compact_range.
 Qed.
 
@@ -375,7 +449,7 @@ Lemma apply_sound : forall so ch h A q (k : resp -> prog A) (Q : A -> own -> Pro
 Proof.
   intros so ch h A q k Q s o s' r fr Hinv Hag Hwp Hap.
   destruct Hag as (L1 & L2 & L3 & L4).
-  destruct q as [pa| | | | | | |pa| |].
+  destruct q as [pa| | | | | | |pa| | |].
   - (* QCreateExcl *)
     destruct pa; cbn [apply_req] in Hap; cbn [wp] in Hwp;
       try (inversion Hap; subst; split; [exact Hinv|]; split; [exists o; split; [exact (conj L1 (conj L2 (conj L3 L4)))|exact Hwp]|auto]).
@@ -547,6 +621,10 @@ Proof.
     cbn [apply_req] in Hap. cbn [wp] in Hwp.
     destruct (lookup _ (f_tabs s)); inversion Hap; subst; (split; [exact Hinv|]); (split; [|auto]);
       exists o; (split; [exact (conj L1 (conj L2 (conj L3 L4)))|apply Hwp]).
+  - (* QOpenOne *)
+    cbn [apply_req] in Hap. cbn [wp] in Hwp.
+    destruct (lookup _ (f_tabs s)); inversion Hap; subst; (split; [exact Hinv|]); (split; [|auto]);
+      exists o; (split; [exact (conj L1 (conj L2 (conj L3 L4)))|apply Hwp]).
   - (* QReadDir *)
     cbn [apply_req] in Hap. inversion Hap; subst. split; [exact Hinv|]. split; [|auto].
     exists o. split; [exact (conj L1 (conj L2 (conj L3 L4)))|apply Hwp].
@@ -636,7 +714,7 @@ Lemma c08_req : forall so ch h A q (k : resp -> prog A) (Q : A -> own -> Prop) s
 Proof.
   intros so ch h A q k Q s o s' r fr ow Hag Hwp Hap [O1 O2].
   destruct Hag as (L1 & L2 & L3 & L4).
-  destruct q as [pa| | | | | | |pa| |].
+  destruct q as [pa| | | | | | |pa| | |].
   - destruct pa; cbn [apply_req] in Hap;
       try (inversion Hap; subst; exists ow; split; [split; assumption|intro rest; reflexivity]).
     + destruct (f_lock s) as [c|] eqn:El; inversion Hap; subst; clear Hap.
@@ -688,6 +766,8 @@ Proof.
       * intro rest. cbn [req_event c08_loop is_lock]. rewrite O2, El, Nat.eqb_refl. reflexivity.
     + exists ow.
       destruct (lookup n (f_tmps s)); inversion Hap; subst; (split; [split; assumption|intro rest; reflexivity]).
+  - cbn [apply_req] in Hap. exists ow.
+    destruct (lookup _ (f_tabs s)); inversion Hap; subst; (split; [split; assumption|intro rest; reflexivity]).
   - cbn [apply_req] in Hap. exists ow.
     destruct (lookup _ (f_tabs s)); inversion Hap; subst; (split; [split; assumption|intro rest; reflexivity]).
   - cbn [apply_req] in Hap. inversion Hap; subst. exists ow. split; [split; assumption|intro rest; reflexivity].
